@@ -4,7 +4,8 @@
 
     gridt.tops   nx ny nz n0 DZ TOPS        -> TOPS' | err      (createTOPSVector; TOPS has n0 values)
     gridt.deck   nx ny nz n0 DX DY DZ TOPS  -> COORD ZCORN nfix | err
-                 (createTOPSVector + makeCoordDxDyDzTops + makeZcornDzTops + fixupZCORN, DX/DY/DZ complete)
+                 (createTOPSVector + makeCoordDxDyDzTops + makeZcornDzTops + fixupZCORN, DX/DY/DZ complete;
+                 which TOPS layers makeZcornDzTops reads is generated: `Gen/GridTops.lean`)
     gridt.aq     records mask               -> forced ACTNUM|nactive|g2a,…|a2g,…
                  records: cell:depth,… (depth `-` = defaulted, else hex double); mask: a,b,…
                  (resetACTNUM(mask) of an object whose deck had these AQUNUM records)
@@ -58,7 +59,7 @@ def handle (op : String) (args : List String) : String :=
       | some t =>
         let tv := tabulate d.size t
         let coord := tabulate (6 * (d.nx + 1) * (d.ny + 1)) (coordDTops d (fn dx) (fn dy) (fn dz) (fn tv))
-        let zcorn := tabulate (8 * d.size) (zcornDTops d (fn dz) (fn tv))
+        let zcorn := tabulate (8 * d.size) (zcornOfCells d (zcornCellOf Gen.GridTops.zcornTopsLayers d (fn dz) (fn tv)))
         let (n, z) := fixupZCORN d zcorn
         s!"{showF64s coord} {showF64s z} {n}"
       | none => "err"
